@@ -1,9 +1,11 @@
 CONSTANTS
   Wrapped <- WrappedAll
+  ParseReports <- ReportsSyntax
 INIT Init
 NEXT Next
 INVARIANT EscapesAreApp
 PROPERTY RenderTotal
 PROPERTY LoopSurvives
 PROPERTY ParseErrorsAreApp
+PROPERTY ParseErrorsAreSyntax
 CHECK_DEADLOCK FALSE
